@@ -58,10 +58,11 @@ type controller struct {
 	released map[int64]bool
 	seen     []int64    // every attempt goroutine that ever reached the gate, in goid order of discovery
 	recv     [][]string // RecvHook calls, in order
+	obs      map[int64]*attemptObs
 }
 
 func newController(gating bool) *controller {
-	c := &controller{gating: gating, gated: map[int64]chan struct{}{}, released: map[int64]bool{}}
+	c := &controller{gating: gating, gated: map[int64]chan struct{}{}, released: map[int64]bool{}, obs: map[int64]*attemptObs{}}
 	c.cond = sync.NewCond(&c.mu)
 	return c
 }
@@ -148,7 +149,32 @@ type gateMatcher struct {
 
 func (g *gateMatcher) MatchVulnerabilities(ctx context.Context, pkgs []*extractor.Package) ([][]*osvschema.Vulnerability, error) {
 	g.c.gate()
-	return g.m.MatchVulnerabilities(ctx, pkgs)
+	res, err := g.m.MatchVulnerabilities(ctx, pkgs)
+	// what this goroutine's latest re-resolution contains (an attempt's last call = the graph its patch is built from)
+	found := map[string]bool{}
+	for _, l := range res {
+		for _, v := range l {
+			found[v.ID] = true
+		}
+	}
+	id := goid()
+	g.c.mu.Lock()
+	g.c.obs[id] = &attemptObs{calls: g.c.obsCalls(id) + 1, last: found}
+	g.c.mu.Unlock()
+	return res, err
+}
+
+// attemptObs: matcher calls made by one goroutine and the vulnerabilities its last re-resolution contained.
+type attemptObs struct {
+	calls int
+	last  map[string]bool
+}
+
+func (c *controller) obsCalls(id int64) int {
+	if o := c.obs[id]; o != nil {
+		return o.calls
+	}
+	return 0
 }
 
 // ---- the attempt forest, learned from the profile run ----
@@ -243,6 +269,96 @@ func (f *forest) randomOrder(rng *rand.Rand) [][]string {
 	return acc
 }
 
+// closureCheck compares the attempts ComputePatches made (their id lists, as seen by the RecvHook) with the closure
+// PatchFanout.tla defines (operator Closure): the roots are one attempt per initially found vulnerability, and
+// every attempt a that yields a patch introducing vulnerabilities `newly` (not in a) calls for the follow-up
+// attempts a+[v] for each v in newly (ungrouped: relax) resp. a+newly (grouped: override) - with exactly those
+// ids. What an attempt's patch introduces is OBSERVED: the vulnerabilities of the last re-resolution its goroutine
+// made, minus the initially found ones. The expectation is only formed for attempts that certainly ended with a
+// patch (they re-resolved at least once and none of their own ids is left in the last graph).
+func closureCheck(strat string, f *forest, initial []string, obs map[string]*attemptObs) string {
+	have := map[string]bool{}
+	for _, a := range f.all {
+		have[key(a)] = true
+	}
+	init := map[string]bool{}
+	for _, v := range initial {
+		init[v] = true
+		if !have[v] {
+			return fmt.Sprintf("closure: no attempt [%s] for an initially found vulnerability (attempts: %v)", v, f.all)
+		}
+	}
+	want := map[string]bool{}
+	for _, v := range initial {
+		want[v] = true
+	}
+	certain := map[string]bool{}
+	for _, a := range f.all {
+		o := obs[key(a)]
+		if o == nil || o.calls == 0 {
+			continue
+		}
+		mine := map[string]bool{}
+		ok := true
+		for _, id := range a {
+			mine[id] = true
+			if o.last[id] {
+				ok = false
+			}
+		}
+		if !ok {
+			continue
+		}
+		certain[key(a)] = true
+		var newly []string
+		for v := range o.last {
+			if !init[v] && !mine[v] {
+				newly = append(newly, v)
+			}
+		}
+		sort.Strings(newly)
+		if len(newly) == 0 {
+			continue
+		}
+		if strat == "override" {
+			want[key(append(append([]string(nil), a...), newly...))] = true
+			if !have[key(append(append([]string(nil), a...), newly...))] {
+				return fmt.Sprintf("closure: attempt %v introduced %v, so a follow-up attempt with ids %v must be made; attempts made: %v", a, newly, append(append([]string(nil), a...), newly...), f.all)
+			}
+			continue
+		}
+		for _, v := range newly {
+			b := append(append([]string(nil), a...), v)
+			want[key(b)] = true
+			if !have[key(b)] {
+				return fmt.Sprintf("closure: attempt %v introduced %v, so a follow-up attempt with ids %v must be made; attempts made: %v", a, newly, b, f.all)
+			}
+		}
+	}
+	// conversely: a follow-up attempt must be called for by its parent (when the parent's outcome is certain)
+	for _, b := range f.all {
+		if len(b) == 1 {
+			if !init[b[0]] {
+				return fmt.Sprintf("closure: attempt %v for a vulnerability that was not found initially", b)
+			}
+			continue
+		}
+		var parent []string
+		for _, a := range f.all {
+			if isPrefix(a, b) && len(a) > len(parent) {
+				parent = a
+			}
+		}
+		if parent == nil {
+			return fmt.Sprintf("closure: follow-up attempt %v has no parent attempt among %v", b, f.all)
+		}
+		if certain[key(parent)] && !want[key(b)] {
+			return fmt.Sprintf("closure: attempt %v was made but its parent %v does not call for it", b, parent)
+		}
+	}
+	return ""
+}
+
 func mustClient(s *Scenario) resolve.Client {
 	cl, err := s.client()
 	if err != nil {
@@ -261,7 +377,8 @@ type fanRun struct {
 	Stuck    string // controller could not realise the schedule / run did not finish
 	Panic    string
 	Unsorted string
-	Lost     bool // an attempt goroutine exists that the profile run never received
+	Lost     bool                   // an attempt goroutine exists that the profile run never received
+	Obs      map[string]*attemptObs // gated runs: attempt -> what its goroutine's re-resolutions showed
 }
 
 var fanoutMu sync.Mutex // the RecvHook is process-global: one ComputePatches at a time
@@ -348,6 +465,14 @@ func (s *Scenario) fanoutRun(ctx context.Context, path string, order [][]string,
 			}
 			expected = append(expected, f.children[key(target)]...)
 		}
+		ctl.mu.Lock()
+		out.Obs = map[string]*attemptObs{}
+		for k, g := range assigned {
+			if o := ctl.obs[g]; o != nil {
+				out.Obs[k] = o
+			}
+		}
+		ctl.mu.Unlock()
 		if out.Stuck != "" {
 			// let everything go so that the run can end
 			ctl.mu.Lock()
@@ -406,20 +531,22 @@ type fanCase struct {
 }
 
 type fanOut struct {
-	I         int        `json:"i"`
-	ID        string     `json:"id"`
-	Attempts  [][]string `json:"attempts"`
-	Roots     int        `json:"roots"`
-	Spawned   int        `json:"spawned"`
-	Compacted bool       `json:"compacted"` // fewer patches than attempts (equal patches compacted, or attempts without a patch)
-	Orders    int        `json:"orders"`    // arrival orders replayed
-	Complete  bool       `json:"complete"`  // every arrival order was replayed
-	Patches   []absPatch `json:"patches"`
-	Mismatch  string     `json:"mismatch,omitempty"`
-	BadOrder  [][]string `json:"bad_order,omitempty"`
-	Stuck     string     `json:"stuck,omitempty"` // schedule could not be imposed (harness-level), not a verdict
-	Skip      string     `json:"skip,omitempty"`
-	Ms        float64    `json:"ms"`
+	I              int        `json:"i"`
+	ID             string     `json:"id"`
+	Attempts       [][]string `json:"attempts"`
+	Roots          int        `json:"roots"`
+	Spawned        int        `json:"spawned"`
+	Compacted      bool       `json:"compacted"`       // fewer patches than attempts (equal patches compacted, or attempts without a patch)
+	Orders         int        `json:"orders"`          // arrival orders replayed
+	Complete       bool       `json:"complete"`        // every arrival order was replayed
+	ClosureChecked bool       `json:"closure_checked"` // the attempted id sets equal the closure PatchFanout.tla defines
+	Depth          int        `json:"depth"`           // longest chain of follow-up attempts
+	Patches        []absPatch `json:"patches"`
+	Mismatch       string     `json:"mismatch,omitempty"`
+	BadOrder       [][]string `json:"bad_order,omitempty"`
+	Stuck          string     `json:"stuck,omitempty"` // schedule could not be imposed (harness-level), not a verdict
+	Skip           string     `json:"skip,omitempty"`
+	Ms             float64    `json:"ms"`
 }
 
 func runFanout(e *Env, idx int, c *fanCase) (*fanOut, error) {
@@ -470,6 +597,9 @@ func runFanout(e *Env, idx int, c *fanCase) (*fanOut, error) {
 		}
 	}
 	out.Attempts = f.all
+	for _, a := range f.all {
+		out.Depth = max(out.Depth, len(a)-1)
+	}
 	out.Roots = len(f.roots)
 	out.Spawned = len(f.all) - len(f.roots)
 	out.Patches = prof.Patches
@@ -511,6 +641,11 @@ func runFanout(e *Env, idx int, c *fanCase) (*fanOut, error) {
 			out.Complete = true
 		}
 	}
+	neutral := len(s.Opts.Ignore) == 0 && len(s.Opts.Explicit) == 0 && s.Opts.DevDeps && s.Opts.MaxDepth <= 0 && s.Opts.MinSeverity == 0
+	var initial []string
+	if aerr == nil {
+		initial = an.VulnIDs
+	}
 	for oi, o := range orders {
 		r := s.fanoutRun(ctx, path, o, f, limit, oi == 0)
 		if r.Stuck != "" {
@@ -537,6 +672,13 @@ func runFanout(e *Env, idx int, c *fanCase) (*fanOut, error) {
 			out.Mismatch, out.BadOrder = fmt.Sprintf("patch list depends on the arrival order: ungated %s, this order %s", a, b), o
 		case len(r.Recv) != len(f.all) || r.Seen > len(r.Recv):
 			out.Mismatch, out.BadOrder = fmt.Sprintf("%d attempts were started but %d results were received before ComputePatches returned", max(r.Seen, len(f.all)), len(r.Recv)), o
+		}
+		if out.Mismatch == "" && out.Stuck == "" && oi == 0 && neutral && aerr == nil {
+			if msg := closureCheck(s.Opts.Strategy, f, initial, r.Obs); msg != "" {
+				out.Mismatch, out.BadOrder = msg, o
+			} else {
+				out.ClosureChecked = true
+			}
 		}
 		if out.Mismatch != "" || out.Stuck != "" {
 			return out, nil
